@@ -85,7 +85,7 @@ func (p *PacketProcessor) ProcessPacketData(data []byte, _ *gopacket.CaptureInfo
 	if err = p.parser.DecodeLayers(data, &p.rcvDecoded); err != nil {
 		return
 	}
-	if !validPacket(p.rcvDecoded) {
+	if !validPacket(p.rcvDecoded) || p.rcvIP.Version != 4 {
 		return
 	}
 
